@@ -1325,3 +1325,67 @@ Proof.
   - split; [intros _; exists c; reflexivity | intros e X; discriminate].
   - split; [intros F; specialize (P1 F); discriminate | intros e X; inversion X; subst; apply P2; reflexivity].
 Qed.
+
+(* ------------------------------------------------------------------ *)
+(* Extension: ModelCollection.cast *)
+Lemma K_cast_is_model : forall b, cast_is_model b = b. Proof. reflexivity. Qed.
+Lemma K_cast_is_collection : forall b, cast_is_collection b = b. Proof. reflexivity. Qed.
+Lemma K_cast_is_seq_of_models : forall b, cast_is_seq_of_models b = b. Proof. reflexivity. Qed.
+Lemma K_cast_n_returns : cast_n_returns = 4. Proof. reflexivity. Qed.
+
+(* casting a collection returns that very collection and touches nothing *)
+Theorem cast_identity : forall h j ty lo di,
+  get_inst h j = Some (ty, lo, di) -> mc_cast h (CColl j) = (h, Ok j).
+Proof. intros h j ty lo di G. unfold mc_cast. rewrite G, K_cast_is_collection. reflexivity. Qed.
+
+Theorem cast_all_histories : forall ops a h' r,
+  mc_cast (run [] ops) a = (h', r) ->
+  let h := run [] ops in
+  firstn (length h) h' = h
+  /\ match r with
+     | Ok c =>
+         match a with
+         | CColl j => c = j /\ h' = h /\ get_inst h j <> None
+         | _ => get_inst h c = None
+                /\ view h' c = Some (CBase, cast_objs a, od_of (enum_names 0 (cast_objs a)))
+                /\ Forall (fun o => issub (ocls o) CBase = true) (cast_objs a)
+         end
+     | Err e => e = TypeError /\ h' = h
+                /\ match a with
+                   | CNone => False
+                   | CObj o => issub (ocls o) CBase = false
+                   | CColl j => get_inst h j = None
+                   | CSeq s => ~ Forall (fun o => issub (ocls o) CBase = true) s
+                   | COther => True
+                   end
+     end.
+Proof.
+  intros ops a h' r E h. fold h in E.
+  assert (NF : forall s, forallb (fun o => issub (ocls o) CBase) s = true -> forall h2 r2,
+            noc_new_from h CBase s = (h2, r2) ->
+            firstn (length h) h2 = h /\ exists c, r2 = Ok c /\ get_inst h c = None
+              /\ view h2 c = Some (CBase, s, od_of (enum_names 0 s))
+              /\ Forall (fun o => issub (ocls o) CBase = true) s).
+  { intros s F h2 r2 E2. destruct (new_from_all_histories ops CBase s h2 r2 E2) as [P R].
+    destruct (new_from_decides ops CBase s h2 r2 E2) as [D _].
+    assert (Fa : Forall (fun o => issub (ocls o) CBase = true) s).
+    { apply Forall_forall. intros o Ho. rewrite forallb_forall in F. apply F; exact Ho. }
+    destruct (D Fa) as [c Ec]. subst r2. split; [exact P|]. exists c. split; [reflexivity|]. tauto. }
+  assert (AllF : forall h0 : heap, firstn (length h0) h0 = h0) by (intros; apply firstn_all).
+  destruct a as [|o|j|s|]; unfold mc_cast in E.
+  - destruct (NF [] eq_refl _ _ E) as (P & c & -> & A). split; [exact P | exact A].
+  - rewrite K_cast_is_model in E. destruct (issub (ocls o) CBase) eqn:I.
+    + assert (F : forallb (fun o0 => issub (ocls o0) CBase) [o] = true) by (cbn; rewrite I; reflexivity).
+      destruct (NF [o] F _ _ E) as (P & c & -> & A). split; [exact P | exact A].
+    + inversion E; subst. split; [apply AllF|]. auto.
+  - rewrite K_cast_is_collection in E. destruct (get_inst h j) eqn:G; inversion E; subst.
+    + split; [apply AllF|]. repeat split. congruence.
+    + split; [apply AllF|]. auto.
+  - rewrite K_cast_is_seq_of_models in E.
+    destruct (forallb (fun o => issub (ocls o) CBase) s) eqn:F.
+    + destruct (NF s F _ _ E) as (P & c & -> & A). split; [exact P | exact A].
+    + inversion E; subst. split; [apply AllF|]. split; [reflexivity|]. split; [reflexivity|].
+      intros Fa. rewrite Forall_forall in Fa.
+      assert (forallb (fun o => issub (ocls o) CBase) s = true) by (apply forallb_forall; exact Fa). congruence.
+  - inversion E; subst. split; [apply AllF|]. auto.
+Qed.
